@@ -1,0 +1,188 @@
+//go:build verif
+
+// Contracts for package prunner, checked by /verif/govc (contract-based deductive
+// verification). This file contains comments only: with or without the build tag the
+// compiled package is identical.
+//
+// Syntax: see /verif/DESIGN.md section 2.3. Every line starting with "//@" is contract text.
+
+package prunner
+
+// ---------------------------------------------------------------------------------------
+// Lock discipline (C13): every field of these structs is guarded by PipelineRunner.mx unless
+// it is listed as immutable (written only before the object is published) or unguarded.
+//
+//@ lockdomain PipelineRunner, PipelineJob, jobTask
+//@ immutable PipelineRunner.store, PipelineRunner.outputStore, PipelineRunner.persistRequests, PipelineRunner.createTaskRunner, PipelineRunner.ShutdownPollInterval
+//@ unguarded PipelineRunner.mx, PipelineRunner.wg
+//@ immutable PipelineJob.ID, PipelineJob.Pipeline, PipelineJob.Env, PipelineJob.Variables, PipelineJob.StartDelay, PipelineJob.Created, PipelineJob.User
+//@ immutable jobTask.Name, jobTask.TaskDef
+//@ guardedmap map[uuid.UUID]*PipelineJob, map[string][]*PipelineJob
+//@ guardedmem *PipelineJob
+
+// ---------------------------------------------------------------------------------------
+// Spec functions
+//
+//@ pure jobRunning(j *PipelineJob) bool = j.Start != nil && !j.Completed && !j.Canceled
+//@ pure jobWaiting(j *PipelineJob) bool = j.Start == nil && !j.Canceled
+//@ pure jobTerminal(j *PipelineJob) bool = j.Canceled || j.Completed
+//@ pure running(r *PipelineRunner, p string) int = cnt(r.jobsByPipeline[p], jobRunning)
+//@ pure conc(r *PipelineRunner, p string) int = r.defs.Pipelines[p].Concurrency
+//@ pure defined(r *PipelineRunner, p string) bool = p in r.defs.Pipelines
+//
+// The admission table of C05, written from the property statement.
+//@ pure admit(r *PipelineRunner, p string, ign bool) scheduleAction = ite(running(r,p) < conc(r,p) && !(r.defs.Pipelines[p].StartDelay > 0 && !ign), scheduleActionStart, ite(r.defs.Pipelines[p].QueueLimit != nil && *r.defs.Pipelines[p].QueueLimit == 0, scheduleActionNoQueue, ite(r.defs.Pipelines[p].QueueStrategy == definition.QueueStrategyReplace && len(r.waitListByPipeline[p]) > 0, scheduleActionReplace, ite(r.defs.Pipelines[p].QueueLimit != nil && len(r.waitListByPipeline[p]) >= *r.defs.Pipelines[p].QueueLimit, scheduleActionQueueFull, scheduleActionQueue))))
+//
+// Representation invariant of the runner (holds whenever mx is free).
+//@ pure RIbase(r *PipelineRunner) bool = r != nil && r.defs != nil && r.jobsByID != nil && r.jobsByPipeline != nil && r.waitListByPipeline != nil && r.jobsByPipeline != r.waitListByPipeline
+//@ pure nonNil(j *PipelineJob) bool = j != nil
+//@ pure neq(e *PipelineJob, j *PipelineJob) bool = e != j
+//@ pure RIjobs(r *PipelineRunner) bool = forall p string :: all(r.jobsByPipeline[p], nonNil)
+//@ pure wlEntry(j *PipelineJob, p string) bool = j != nil && allocated(j) && j.Pipeline == p && j.Start == nil && !j.Canceled && !j.Completed
+//@ pure RIwl(r *PipelineRunner) bool = forall p string :: all(r.waitListByPipeline[p], wlEntry, p) && distinctElems(r.waitListByPipeline[p])
+//@ pure RI(r *PipelineRunner) bool = RIbase(r) && RIjobs(r) && RIwl(r)
+
+// ---------------------------------------------------------------------------------------
+//@ func (*PipelineJob).isRunning
+//@   lockmode R
+//@   requires [nonnil] j != nil
+//@   ensures  [def] res == jobRunning(j)
+//@   modifies nothing
+
+//@ func (*PipelineRunner).runningJobsCount
+//@   lockmode R
+//@   requires [ri] RIbase(r) && RIjobs(r)
+//@   ensures  [count] res == running(r, pipeline)
+//@   modifies nothing
+//@   loop 1 invariant [prefix] 0 <= $i + 1 && $i + 1 <= len(r.jobsByPipeline[pipeline]) && running == cnt(r.jobsByPipeline[pipeline][:$i+1], jobRunning)
+
+//@ func (*PipelineRunner).isRunning
+//@   lockmode R
+//@   requires [ri] RIbase(r) && RIjobs(r)
+//@   ensures  [C15.running] res <==> exists k :: 0 <= k && k < len(r.jobsByPipeline[pipeline]) && jobRunning(r.jobsByPipeline[pipeline][k])
+//@   modifies nothing
+//@   loop 1 invariant [none] 0 <= $i + 1 && $i + 1 <= len(r.jobsByPipeline[pipeline]) && forall k :: 0 <= k && k <= $i ==> !jobRunning(r.jobsByPipeline[pipeline][k])
+
+//@ func (*PipelineRunner).resolveScheduleAction
+//@   lockmode R
+//@   requires [ri] RIbase(r) && RIjobs(r)
+//@   ensures  [C05.table] res == admit(r, pipeline, ignoreStartDelay)
+//@   ensures  [C01.guard] res == scheduleActionStart ==> running(r, pipeline) < conc(r, pipeline)
+//@   ensures  [range] res != scheduleActionQueueDelay
+//@   modifies nothing
+
+//@ func (*PipelineRunner).resolveDequeueJobAction
+//@   lockmode R
+//@   requires [ri] RIbase(r) && RIjobs(r) && job != nil
+//@   ensures  [C03.dequeueDecision] job.startTimer == nil && running(r, job.Pipeline) < conc(r, job.Pipeline) ==> res == scheduleActionStart
+//@   ensures  [C01.guard] res == scheduleActionStart ==> running(r, job.Pipeline) < conc(r, job.Pipeline)
+//@   ensures  [table] res == admit(r, job.Pipeline, job.startTimer == nil)
+//@   modifies nothing
+
+//@ func (*PipelineRunner).isSchedulable
+//@   lockmode R
+//@   requires [ri] RIbase(r) && RIjobs(r)
+//@   ensures  [C15.sched] res <==> (admit(r, pipeline, false) != scheduleActionNoQueue && admit(r, pipeline, false) != scheduleActionQueueFull)
+//@   modifies nothing
+
+//@ func (*PipelineRunner).determineIfJobShouldBeRemoved
+//@   lockmode R
+//@   requires [ri] RIbase(r) && job != nil
+//@   ensures  [C12.decision] res0 <==> (!defined(r, job.Pipeline) || (!jobWaiting(job) && (job.Completed || job.Canceled) && ((r.defs.Pipelines[job.Pipeline].RetentionPeriod > 0 && $clock - job.Created > r.defs.Pipelines[job.Pipeline].RetentionPeriod) || (r.defs.Pipelines[job.Pipeline].RetentionCount > 0 && index >= r.defs.Pipelines[job.Pipeline].RetentionCount))))
+//@   ensures  [C12.keepLive] defined(r, job.Pipeline) && (jobWaiting(job) || jobRunning(job)) ==> !res0
+//@   ensures  [C12.noSettings] defined(r, job.Pipeline) && r.defs.Pipelines[job.Pipeline].RetentionPeriod == 0 && r.defs.Pipelines[job.Pipeline].RetentionCount == 0 ==> !res0
+//@   ensures  [clock] $clock >= old($clock)
+//@   modifies $clock
+
+//@ property C01: prunner.(*PipelineJob).isRunning/ensures* prunner.(*PipelineRunner).runningJobsCount/ensures* prunner.(*PipelineRunner).runningJobsCount/loop* prunner.(*PipelineRunner).resolveScheduleAction/ensures[C01.guard] prunner.(*PipelineRunner).resolveDequeueJobAction/ensures[C01.guard]
+
+// ---------------------------------------------------------------------------------------
+// Ghost state
+//@ ghost $persist scalar Bool
+
+//@ func (*PipelineRunner).requestPersist
+//@   lockmode any
+//@   trusted the non-blocking send on persistRequests is the persist request (ghost $persist); the body is a select with default
+//@   ensures [req] $persist
+//@   modifies $persist
+
+//@ func (*PipelineJob).markAsCanceled
+//@   lockmode W
+//@   requires [nonnil] j != nil
+//@   ensures  [canceled] j.Canceled && forall i :: 0 <= i && i < len(j.Tasks) ==> j.Tasks[i].Canceled
+//@   modifies PipelineJob.Canceled@[j], jobTask.Canceled
+//@   loop 1 invariant [tasks] 0 <= $i + 1 && $i + 1 <= len(j.Tasks) && j.Canceled && (forall i :: 0 <= i && i <= $i ==> j.Tasks[i].Canceled)
+
+//@ func (*PipelineJob).deinitScheduler
+//@   lockmode W
+//@   requires [nonnil] j != nil && j.sched != nil
+//@   ensures  [cleared] j.sched == nil && j.taskRunner == nil
+//@   modifies PipelineJob.sched@[j], PipelineJob.taskRunner@[j]
+
+//@ func (*PipelineRunner).initScheduler
+//@   lockmode W
+//@   requires [nonnil] r != nil && j != nil
+//@   ensures  [set] j.sched != nil && fresh(j.sched)
+//@   modifies PipelineJob.sched@[j], PipelineJob.taskRunner@[j], taskctl.Scheduler.onStageChange
+
+//@ func removeJobFromWaitList
+//@   lockmode R
+//@   requires [elems] forall k :: 0 <= k && k < len(waitList) ==> waitList[k] != nil
+//@   ensures  [absent] (forall k :: 0 <= k && k < len(waitList) ==> waitList[k] != jobToRemove) ==> res == waitList
+//@   ensures  [removed] (exists k :: 0 <= k && k < len(waitList) && waitList[k] == jobToRemove) ==> len(res) == len(waitList) - 1 && fresh(base(res)) && off(res) == 0 && exists m :: 0 <= m && m < len(waitList) && waitList[m] == jobToRemove && (forall k :: 0 <= k && k < m ==> res[k] == waitList[k] && waitList[k] != jobToRemove) && (forall k :: m <= k && k < len(res) ==> res[k] == waitList[k+1])
+//@   ensures  [old] forall k :: 0 <= k && k < len(waitList) ==> waitList[k] == old(waitList[k])
+//@   modifies mem(*PipelineJob)
+//@   loop 1 invariant [notyet] 0 <= $i + 1 && $i + 1 <= len(waitList) && (forall k :: 0 <= k && k <= $i ==> waitList[k] != jobToRemove)
+
+// ---------------------------------------------------------------------------------------
+// Two-state invariant of job life cycles (section 4.3 of DESIGN.md): holds between entry and exit of
+// every function below, for every job object.
+//@ pure Tjobs() bool = forall j *PipelineJob :: (old(j.Start) != nil ==> j.Start == old(j.Start)) && (old(j.Canceled) ==> j.Canceled) && (old(j.Completed) ==> j.Completed) && (old(jobRunning(j)) && !jobRunning(j) ==> j.Completed)
+//@ pure progress(r *PipelineRunner, p string) bool = len(r.waitListByPipeline[p]) == 0 || running(r, p) >= conc(r, p) || r.waitListByPipeline[p][0].startTimer != nil
+//@ pure notOnList(r *PipelineRunner, job *PipelineJob) bool = all(r.waitListByPipeline[job.Pipeline], neq, job)
+//@ pure suffixOf(a []*PipelineJob, b []*PipelineJob) bool = base(a) == base(b) && off(a) >= off(b) && off(a) + len(a) == off(b) + len(b)
+//@ pure Tcanceled() bool = forall j *PipelineJob :: old(j.Canceled) ==> j.Start == old(j.Start) && j.LastError == old(j.LastError) && j.sched == old(j.sched) && j.startTimer == old(j.startTimer)
+
+//@ func buildJobTasks
+//@   lockmode any
+//@   trusted builds a fresh task list from the definition (sortTasksByDependencies: nested maps, library sorts and a closure are outside the verifier's subset; order checked by a bounded stand-in)
+//@   ensures [fresh] fresh(base(result)) && off(result) == 0
+//@   modifies nothing
+
+//@ func buildPipelineGraph
+//@   lockmode any
+//@   trusted graph construction calls upstream taskctl (task.FromCommands, variables, scheduler.NewExecutionGraph); it has no access to runner state
+//@   modifies nothing
+
+//@ func (*PipelineRunner).startJob
+//@   lockmode W
+//@   requires [ri] RI(r) && job != nil
+//@   requires [notStarted] job.Canceled || (job.Start == nil && !job.Completed)
+//@   requires [slotFree] job.Canceled || running(r, job.Pipeline) < conc(r, job.Pipeline)
+//@   requires [timerDone] job.Canceled || job.startTimer == nil
+//@   requires [offList] notOnList(r, job)
+//@   ensures  [ri] RI(r)
+//@   ensures  [skipCanceled] old(job.Canceled) ==> unchangedHeap()
+//@   ensures  [started] !old(job.Canceled) && !job.Canceled ==> job.Start != nil && job.sched != nil && same("map(map[string][]*PipelineJob)") && sameExcept(PipelineJob.Start, job) && same(PipelineJob.Canceled)
+//@   ensures  [graphError] !old(job.Canceled) && job.Canceled ==> job.Start == nil && job.LastError != nil
+//@   ensures  [C03.progress] !old(job.Canceled) && job.Canceled ==> progress(r, job.Pipeline)
+//@   ensures  [C06.suffix] suffixOf(r.waitListByPipeline[job.Pipeline], old(r.waitListByPipeline[job.Pipeline]))
+//@   ensures  [persist] !old(job.Canceled) ==> $persist
+//@   ensures  [T] Tjobs() && Tcanceled()
+//@   ensures  [defs] r.defs == old(r.defs)
+//@   modifies PipelineJob.Start, PipelineJob.sched, PipelineJob.taskRunner, PipelineJob.LastError, PipelineJob.Canceled, taskctl.Scheduler.onStageChange, map(map[string][]*PipelineJob)@[r.waitListByPipeline], mem(time.Time), $persist, $clock
+
+//@ func (*PipelineRunner).startJobsOnWaitList
+//@   lockmode W
+//@   requires [ri] RI(r)
+//@   ensures  [ri] RI(r)
+//@   ensures  [C03.progress] progress(r, pipeline)
+//@   ensures  [C06.suffix] suffixOf(r.waitListByPipeline[pipeline], old(r.waitListByPipeline[pipeline]))
+//@   ensures  [T] Tjobs() && Tcanceled()
+//@   ensures  [defs] r.defs == old(r.defs)
+//@   modifies PipelineJob.Start, PipelineJob.sched, PipelineJob.taskRunner, PipelineJob.LastError, PipelineJob.Canceled, taskctl.Scheduler.onStageChange, map(map[string][]*PipelineJob)@[r.waitListByPipeline], mem(time.Time), $persist, $clock
+//@   loop 1 invariant [ri] RI(r) && r.defs == old(r.defs) && r.waitListByPipeline == old(r.waitListByPipeline)
+//@   loop 1 invariant [current] waitList == r.waitListByPipeline[pipeline]
+//@   loop 1 invariant [suffix] suffixOf(waitList, old(r.waitListByPipeline[pipeline]))
+//@   loop 1 invariant [T] Tjobs() && Tcanceled()
+//@   loop 1 invariant [frame] sameExcept("map(map[string][]*PipelineJob)", old(r.waitListByPipeline))
